@@ -17,7 +17,7 @@ import builtins as _builtins
 from .peval import Evaluator, Model, Unsupported, RaisedInModel, ProgramRaised, ReturnValue, _Continue, _Break
 from .source import ClassInfo, FuncInfo, ModuleInfo, norm, const_value
 
-BUILTIN_FUNCS = {"len", "zip", "enumerate", "dict", "list", "tuple", "range", "all", "any", "min", "max", "abs", "int",
+BUILTIN_FUNCS = {"len", "zip", "enumerate", "dict", "list", "tuple", "range", "all", "any", "min", "max", "abs", "int", "slice", "divmod", "pow",
                  "float", "str", "bool", "sorted", "set", "sum", "round", "reversed", "repr", "iter", "next", "id"}
 BUILTIN_TYPES = {"int": int, "float": float, "str": str, "bool": bool, "dict": dict, "list": list, "tuple": tuple,
                  "set": set, "object": object, "complex": complex, "bytes": bytes, "type": type, "slice": slice}
@@ -151,6 +151,9 @@ class ModelEval(Evaluator):
                 return base.data[0].name
             if base.kind == "pkg" and isinstance(base.data[0], FuncInfo) and a == "__name__":
                 return base.data[0].name
+            if base.kind == "type" and base.data[0] in (dict, str, list, tuple, int, float) and hasattr(base.data[0], a) and not a.startswith("__"):
+                # dict.fromkeys, str.join, ... : the builtin's own (pure) class-level function
+                return Marker("pyfunc", getattr(base.data[0], a))
             raise Unsupported("attribute %s of %r" % (a, base))
         if isinstance(base, Model):
             try:
@@ -177,8 +180,13 @@ class ModelEval(Evaluator):
             return obj._attrs[a]
         m = self.tree.method(obj._cls, a)
         if m is not None:
-            if any(isinstance(d, ast.Name) and d.id == "property" for d in m.node.decorator_list):
+            decos = {d.id for d in m.node.decorator_list if isinstance(d, ast.Name)}
+            if "property" in decos:
                 return self.invoke(m, [obj], {}, node)
+            if "staticmethod" in decos:
+                return Marker("pkg", m)
+            if "classmethod" in decos:
+                return Marker("bound", m, Marker("pkg", obj._cls))
             return Marker("bound", m, obj)
         if a == "__dict__":
             return obj._attrs
@@ -346,6 +354,11 @@ class ModelEval(Evaluator):
                 try:
                     return t(*args, **kwargs)
                 except (TypeError, ValueError) as e:
+                    raise Raised(type(e).__name__, node, str(e))
+            if k == "pyfunc":
+                try:
+                    return func.data[0](*args, **kwargs)
+                except (TypeError, ValueError, KeyError) as e:
                     raise Raised(type(e).__name__, node, str(e))
             if k == "exc":
                 return Marker("excinst", func.data[0], args)
@@ -739,8 +752,16 @@ class ModelEval(Evaluator):
                 parts.append(str(v.value))
             else:
                 val = self.ev(v.value)
-                if isinstance(val, (str, int, float)):
-                    parts.append(("{:%s}" % self.ev(v.format_spec) if v.format_spec else "{}").format(val))
+                spec = self.ev(v.format_spec) if v.format_spec else ""
+                if v.conversion == 114:
+                    val = repr(val)
+                elif v.conversion == 115:
+                    val = str(val)
+                if isinstance(val, (str, int, float)) or (isinstance(val, Model) and type(val).__format__ is not object.__format__):
+                    try:
+                        parts.append(format(val, spec))
+                    except (TypeError, ValueError) as e:
+                        raise Raised(type(e).__name__, node, str(e))
                 else:
                     parts.append("<%s>" % type(val).__name__)
         return "".join(parts)
